@@ -178,11 +178,12 @@ FILL = {1: [b'\n'], 2: [b'X\n', b'C\n'], 3: [b'*R\n', b' X\n'], 4: [b'A:B\n', b'
 
 def find_real_instance(run, v):
     """an abstract counterexample says: for SOME deterministic run, process misbehaves on a stream with this newline pattern.
-    Look for a concrete T1 stream with the same pattern on which the real code shows the same kind of misbehaviour.
-    returns (True, detail) / (None, detail) when no concrete instance was found (not confirmable)"""
+    Look for a concrete T1 stream with the same pattern on which the real code shows the same kind of misbehaviour
+    (queries answering 7 or 123).  returns (True, detail) / (None, detail) when no concrete instance was found"""
     import itertools
     cands = [v] + list(v.get('alternatives', []))
     detail = {'tried': 0}
+    big = {str(i): ['ok', 'int:123'] for i in range(8)}
     for cv in cands[:60]:
         pat = cv['pattern']
         lens = [len(p) + 1 for p in pat.split('N')[:-1]]
@@ -190,43 +191,44 @@ def find_real_instance(run, v):
         options = [FILL.get(l, [b' ' * (l - 2) + b'X\n']) for l in lens]
         for combo in itertools.islice(itertools.product(*options), 24):
             stream = b''.join(combo) + b'X' * tail
-            base = {'entry': 'process', 'device': 'T1', 'input': stream.hex(), 'n': cv['n']}
-            ok_all = True
-            a = None
-            for rel in (False, True):
-                if v['rule'] in ('CHUNKING',):
-                    a = run.native([dict(base, chunks=cv.get('chunks') or [], tail=1)], release=rel)[0]
-                    b = run.native([dict(base, chunks=[], tail=1)], release=rel)[0]
-                    ok = (a.get('events'), a.get('out'), a.get('panic')) != (b.get('events'), b.get('out'), b.get('panic'))
-                elif v['rule'] in ('PANIC', 'HANG'):
-                    a = run.native([dict(base, chunks=cv.get('chunks') or [], tail=1)], release=rel)[0]
-                    ok = a.get('panic') is not None
-                else:
-                    fault = [cv['fault'], 77] if cv.get('fault') is not None else None
-                    a = run.native([dict(base, chunks=cv.get('chunks') or [], tail=1, fault=fault)], release=rel)[0]
-                    tr = a.get('trace', [])
-                    if v['rule'] == 'RETURNED_OK':
-                        ok = a.get('result') == 'ok'
-                    elif v['rule'] == 'ERROR_CHANGED':
-                        ok = fault is not None and any(t.endswith('!77') for t in tr) and a.get('result') != 'err:77'
-                    elif v['rule'] == 'CALL_AFTER_ERROR':
-                        ok = any(t.endswith('!77') for t in tr) and not tr[-1].endswith('!77')
-                    elif v['rule'] == 'ORDER':
-                        ok = order_violation_native(tr) is not None
-                    else:
-                        ok = False
-                ok_all = ok_all and ok
-                if not ok:
-                    break
-            detail['tried'] += 1
-            if ok_all:
-                detail['stream'] = stream.decode('latin1')
-                detail['n'] = cv['n']
-                detail['chunks'] = cv.get('chunks')
-                detail['fault'] = cv.get('fault')
-                detail['observation'] = a
-                return True, detail
+            for script in (None, big):
+                base = {'entry': 'process', 'device': 'T1', 'input': stream.hex(), 'n': cv['n'], 'script': script}
+                detail['tried'] += 1
+                ok_all, a = _instance_shows(run, v, cv, base)
+                if ok_all:
+                    detail.update({'stream': stream.decode('latin1'), 'n': cv['n'], 'chunks': cv.get('chunks'), 'fault': cv.get('fault'),
+                                   'answers': '123' if script else '7', 'observation': a})
+                    return True, detail
     return None, detail
+
+
+def _instance_shows(run, v, cv, base):
+    a = None
+    for rel in (False, True):
+        if v['rule'] in ('CHUNKING',):
+            a = run.native([dict(base, chunks=cv.get('chunks') or [], tail=1)], release=rel)[0]
+            b = run.native([dict(base, chunks=[], tail=1)], release=rel)[0]
+            ok = (a.get('events'), a.get('out'), a.get('panic')) != (b.get('events'), b.get('out'), b.get('panic'))
+        elif v['rule'] in ('PANIC', 'HANG'):
+            a = run.native([dict(base, chunks=cv.get('chunks') or [], tail=1)], release=rel)[0]
+            ok = a.get('panic') is not None
+        else:
+            fault = [cv['fault'], 77] if cv.get('fault') is not None else None
+            a = run.native([dict(base, chunks=cv.get('chunks') or [], tail=1, fault=fault)], release=rel)[0]
+            tr = a.get('trace', [])
+            if v['rule'] == 'RETURNED_OK':
+                ok = a.get('result') == 'ok'
+            elif v['rule'] == 'ERROR_CHANGED':
+                ok = fault is not None and any(t.endswith('!77') for t in tr) and a.get('result') != 'err:77'
+            elif v['rule'] == 'CALL_AFTER_ERROR':
+                ok = any(t.endswith('!77') for t in tr) and not tr[-1].endswith('!77')
+            elif v['rule'] == 'ORDER':
+                ok = order_violation_native(tr) is not None
+            else:
+                ok = False
+        if not ok:
+            return False, a
+    return True, a
 
 
 def order_violation_native(tr):
